@@ -5,6 +5,7 @@ package harness
 // x {certificate} is small: enumerated completely in the thorough tier.
 
 import (
+	"strings"
 	"fmt"
 	"testing"
 	"time"
@@ -26,6 +27,9 @@ type c04Case struct {
 	Transport  string `json:"transport"`   // tcp ws
 	// Sibling: "insecure" / "strict" = another Client was built before on the same *tls.Config with Insecure on / off
 	Sibling string `json:"sibling,omitempty"`
+	// WSScheme: ws only - the scheme as written in the address when it is not the lower-case "ws" (WS, Ws, wS). Such an
+	// address is not promised to be a WebSocket address; whatever the library makes of it, the rule on clear text holds.
+	WSScheme string `json:"ws_scheme,omitempty"`
 }
 
 var (
@@ -50,6 +54,7 @@ func genC04(t *rapid.T) c04Case {
 	if rapid.IntRange(0, 9).Draw(t, "ws") == 0 {
 		c.Transport = "ws"
 		c.Prior = false
+		c.WSScheme = rapid.SampledFrom([]string{"", "", "WS", "Ws", "wS"}).Draw(t, "wsScheme")
 	}
 	if c.TLSConf != "nil" && rapid.IntRange(0, 3).Draw(t, "sibling") == 0 {
 		c.Sibling = rapid.SampledFrom([]string{"insecure", "strict"}).Draw(t, "siblingKind")
@@ -87,7 +92,7 @@ func runC04(c c04Case) vh.Result {
 	tlsPossible := c.Offer != "none" && c.Reply == "proceed"
 	expectSuccess := (tlsPossible && certOK) || (c.Offer == "none" && c.Insecure)
 	if c.Transport == "ws" {
-		expectSuccess = c.Insecure
+		expectSuccess = c.Insecure && c.WSScheme == ""
 	}
 	if expectSuccess && tlsPossible {
 		res.Label("expect-auth-inside-tls")
@@ -134,6 +139,10 @@ func runC04(c c04Case) vh.Result {
 		}
 		defer srv.Close()
 		addr = srv.URL
+		if c.WSScheme != "" {
+			addr = c.WSScheme + strings.TrimPrefix(addr, "ws")
+			res.Label("ws-scheme-not-lower-case")
+		}
 	} else {
 		srv, err := peer.Listen(func(pc *peer.Conn) {
 			if c.Prior && pc.Index == 0 {
@@ -200,9 +209,17 @@ func runC04(c c04Case) vh.Result {
 		return res
 	}
 	var o obs
+	wait := 15 * time.Second
+	if c.WSScheme != "" && cerr != nil {
+		wait = 500 * time.Millisecond // the address need not be dialable at all: then nothing was written to anyone
+	}
 	select {
 	case o = <-obsc:
-	case <-time.After(15 * time.Second):
+	case <-time.After(wait):
+		if c.WSScheme != "" && cerr != nil {
+			res.Label("ws-scheme-variant-never-reached-the-server")
+			break
+		}
 		res.Fail("harness", "peer did not report")
 		return res
 	}
@@ -257,7 +274,7 @@ func runC04(c c04Case) vh.Result {
 
 var c04 = vh.Define(&vh.Def[c04Case]{
 	Property: "C04", Name: "tls",
-	Rule: "client settings {Insecure on/off} x {TLSConfig nil, RootCAs = test CA, InsecureSkipVerify} x {ServerName unset, = domain, = another name} (after a failed negotiation the server goes on to send an IQ request and a message on the unprotected connection) x {alone, or after another Client was built on the same *tls.Config with Insecure on / off (a quarter of the cases with a TLSConfig)} x server STARTTLS {not offered, offered, required} x reply {proceed, failure, unexpected element, malformed, close} x certificate {valid for the domain, wrong host, untrusted issuer, expired, valid only for the other name, valid for both} x {first connection, reconnection after a good TLS connection was lost} over TCP, plus ws:// addresses; real TLS handshakes; oracle on the peer transcript, which tags every received element clear-text / inside-TLS: with Insecure off no <auth/> or stanza in clear text; with verification enabled and a certificate that does not validate for the domain no <auth/> or stanza inside TLS and Connect fails; the legitimate combinations must succeed with <auth/> inside TLS after a fresh stream header (guards against a vacuous fail-closed pass); non-trivial = TLS was attempted or Insecure is off",
+	Rule: "client settings {Insecure on/off} x {TLSConfig nil, RootCAs = test CA, InsecureSkipVerify} x {ServerName unset, = domain, = another name} (after a failed negotiation the server goes on to send an IQ request and a message on the unprotected connection) x {alone, or after another Client was built on the same *tls.Config with Insecure on / off (a quarter of the cases with a TLSConfig)} x server STARTTLS {not offered, offered, required} x reply {proceed, failure, unexpected element, malformed, close} x certificate {valid for the domain, wrong host, untrusted issuer, expired, valid only for the other name, valid for both} x {first connection, reconnection after a good TLS connection was lost} over TCP, plus ws:// addresses (in 2 of 5 with the scheme written WS / Ws / wS, for which only the clear-text rule is asserted); real TLS handshakes; oracle on the peer transcript, which tags every received element clear-text / inside-TLS: with Insecure off no <auth/> or stanza in clear text; with verification enabled and a certificate that does not validate for the domain no <auth/> or stanza inside TLS and Connect fails; the legitimate combinations must succeed with <auth/> inside TLS after a fresh stream header (guards against a vacuous fail-closed pass); non-trivial = TLS was attempted or Insecure is off",
 	Quick: 400, Thorough: 3000, Journal: true,
 	Gen: genC04, Run: runC04,
 })
